@@ -1126,6 +1126,8 @@ def run(shard, ctx):
                 else:
                     ctx.count('cascade_aborted_after_violation')
                 del e
+            if ctx.n_violations > before:
+                ctx.count('cascades_with_a_violation')
             if out is not None:
                 ctx.case(out[0], trivial=out[1])
             else:
